@@ -102,12 +102,12 @@ type Exec struct {
 	ps pathState
 
 	// scheduler state (sched.go)
-	gs      []*goroutine
-	cur     *goroutine
-	dead    bool
-	sideTab map[*value]interface{} // mutex/once/waitgroup/tls-stub state keyed by object address
+	gs             []*goroutine
+	cur            *goroutine
+	dead           bool
+	sideTab        map[*value]interface{} // mutex/once/waitgroup/tls-stub state keyed by object address
 	persistSideTab map[*value]interface{}
-	hb      *hbState
+	hb             *hbState
 
 	knownIDs map[string]bool
 	MaxSteps int64
@@ -127,6 +127,8 @@ type Exec struct {
 	sampleCount         int
 	pinNext             *pinSpec
 	hbFilter            func(*frame) bool
+	clock               uint64
+	sleeps              []value
 }
 
 type mkey struct {
@@ -488,14 +490,7 @@ func (ex *Exec) index(idx value, it types.Type, n int) int {
 	k := basicKind(it)
 	if t, ok := idx.(*sym.Term); ok {
 		// can it be out of range?
-		c := ex.ctx
-		var inr *sym.Term
-		if k.signed {
-			inr = c.And(c.Cmp(sym.OpSle, c.BV(0, k.w), t), c.Cmp(sym.OpSlt, t, c.BV(uint64(n), k.w)))
-		} else {
-			inr = c.Cmp(sym.OpUlt, t, c.BV(uint64(n), k.w))
-		}
-		if !ex.branch(norm(inr)) {
+		if !ex.branch(ex.inRange(t, k, n)) {
 			ex.rtPanic(fmt.Sprintf("index out of range [sym] with length %d", n))
 		}
 		return int(ex.concretize(t, n+1, "index"))
@@ -517,6 +512,23 @@ func (ex *Exec) index(idx value, it types.Type, n int) int {
 	return int(i)
 }
 
+// inRange: 0 <= t < n for an index term of kind k (n may exceed the index
+// type's range).
+func (ex *Exec) inRange(t *sym.Term, k kind, n int) value {
+	c := ex.ctx
+	if k.signed {
+		nonneg := c.Cmp(sym.OpSle, c.BV(0, k.w), t)
+		if k.w < 64 && uint64(n) > maskW(k.w)>>1 {
+			return norm(nonneg)
+		}
+		return norm(c.And(nonneg, c.Cmp(sym.OpSlt, t, c.BV(uint64(n), k.w))))
+	}
+	if k.w < 64 && uint64(n) > maskW(k.w) {
+		return true
+	}
+	return norm(c.Cmp(sym.OpUlt, t, c.BV(uint64(n), k.w)))
+}
+
 // indexVal reads s[idx]; a symbolic index into a table of scalars becomes an
 // ite chain over runs of constant slope (no fork).
 func (ex *Exec) indexVal(s []value, idx value, it types.Type, et types.Type) value {
@@ -530,13 +542,7 @@ func (ex *Exec) indexVal(s []value, idx value, it types.Type, et types.Type) val
 	}
 	k := basicKind(it)
 	c := ex.ctx
-	var inr *sym.Term
-	if k.signed {
-		inr = c.And(c.Cmp(sym.OpSle, c.BV(0, k.w), t), c.Cmp(sym.OpSlt, t, c.BV(uint64(len(s)), k.w)))
-	} else {
-		inr = c.Cmp(sym.OpUlt, t, c.BV(uint64(len(s)), k.w))
-	}
-	if !ex.branch(norm(inr)) {
+	if !ex.branch(ex.inRange(t, k, len(s))) {
 		ex.rtPanic(fmt.Sprintf("index out of range [sym] with length %d", len(s)))
 	}
 	// build runs: concrete entries with slope 0 or 1; symbolic entries alone
